@@ -251,6 +251,81 @@ def gen_fill_refresh(rng, count):
     return cases
 
 
+def level_pattern_variant(n, rows, p, mode):
+    """the level-p pattern under a WRONG level bookkeeping (used only to SELECT inputs that are sensitive to it):
+    mode 'first' = an existing entry keeps its first level, 'last' = the newest level always overwrites,
+    'max' = the larger level wins.  mode 'min' is the textbook rule."""
+    INF = 10 ** 9
+    lev = [[INF] * n for _ in range(n)]
+    for i, r in enumerate(rows):
+        for j in r:
+            lev[i][j] = 0
+    if p >= 1:
+        for i in range(n):
+            for k in range(i):
+                if lev[i][k] <= p:
+                    for j in range(k + 1, n):
+                        if lev[k][j] <= p:
+                            l = lev[i][k] + lev[k][j] + 1
+                            if l > p:
+                                continue   # never stored
+                            old = lev[i][j]
+                            if old == INF or mode == "last" or (mode == "min" and l < old) or (mode == "max" and l > old):
+                                lev[i][j] = l
+    return [[j for j in range(n) if lev[i][j] <= max(p, 0)] for i in range(n)]
+
+
+def multipath_sensitive(n, rows, p):
+    good = level_pattern(n, rows, p)
+    return any(level_pattern_variant(n, rows, p, m) != good for m in ("first", "last", "max"))
+
+
+# skeleton with an entry reached through two pivots with different levels and a dependent entry:
+# (1,3) is level-1 fill via pivot 0; (4,3) gets level 2 via pivot 1 and level 1 via pivot 2; (4,5) via pivot 3 has
+# level lev(4,3) + 1, i.e. 2 only if the minimum was kept.  OPTIONAL entries are switched on in all combinations.
+MP_SKELETON = [(1, 0), (0, 3), (4, 1), (4, 2), (2, 3), (3, 5)]
+MP_OPTIONAL = [(5, 4), (2, 0), (0, 5), (5, 3), (3, 1), (1, 4), (5, 0)]
+
+
+def gen_multipath(rng, nrandom):
+    """deterministic part of every tier for the level bookkeeping of ILU(p), p >= 2: all 2^7 extensions of the
+    6x6 multi-path skeleton and of its transpose, every p in {0,1,2,3,4,n}, plus `nrandom` random patterns (n = 5..9)
+    that are verified to be sensitive to a wrong level rule at their p; each as `iluf` (exact pattern + factors)
+    and as an `hist ilu` apply."""
+    cases = []
+
+    def emit(n, rows, p):
+        if p >= 2:
+            rp = [0]
+            for r in rows:
+                rp.append(rp[-1] + len(r))
+            cases.append("ilulev %d %d %s %s" % (p, n, fmt_n(rp), fmt_n([c for r in rows for c in r])))
+        vals = gen_values(rng, rows, dominant=True)
+        cases.append("iluf %d %s %s" % (p, fmt_csr(rows, vals), fmt_q(rand_vec(rng, n))))
+        cases.append("hist ilu %d 1/1 %s 0 4 S N A %s D" % (p, fmt_csr(rows, vals), fmt_q(rand_vec(rng, n))))
+
+    n = 6
+    for transpose in (False, True):
+        for mask in range(1 << len(MP_OPTIONAL)):
+            ent = list(MP_SKELETON) + [e for b, e in enumerate(MP_OPTIONAL) if mask >> b & 1]
+            if transpose:
+                ent = [(c, r) for r, c in ent]
+            rows = [sorted({i} | {c for r, c in ent if r == i}) for i in range(n)]
+            for p in (0, 1, 2, 3, 4, n):
+                if p in (2, 3, 4) or mask % 16 == 0:   # the insensitive levels only for a sample
+                    emit(n, rows, p)
+    got, tries = 0, 0
+    while got < nrandom and tries < 200 * nrandom:
+        tries += 1
+        n = rng.choice([5, 6, 7, 8, 9])
+        style, rows = gen_pattern(rng, n, rng.choice(["sparse", "sparse", "band2", "lower", "dense"]))
+        p = rng.choice([2, 2, 3, 4])
+        if multipath_sensitive(n, rows, p):
+            emit(n, rows, p)
+            got += 1
+    return cases
+
+
 def gen_cases(rng, count, big=False):
     cases = []
     for _ in range(count):
@@ -713,8 +788,49 @@ def oracle_iluf(case, out):
     return None
 
 
+def level_table(n, rows, p):
+    """textbook levels (min over the pivots in ascending order), None above p"""
+    INF = 10 ** 9
+    lev = [[INF] * n for _ in range(n)]
+    for i, r in enumerate(rows):
+        for j in r:
+            lev[i][j] = 0
+    for i in range(n):
+        for k in range(i):
+            if lev[i][k] <= p:
+                for j in range(k + 1, n):
+                    if lev[k][j] <= p:
+                        lev[i][j] = min(lev[i][j], lev[i][k] + lev[k][j] + 1)
+    return [[(l if l <= p else None) for l in row] for row in lev]
+
+
+def oracle_ilulev(case, out):
+    c = Tk(case)
+    c.tok()
+    p, n = c.nat(), c.nat()
+    rp, ci = c.nlist(), c.nlist()
+    rows = [ci[rp[i]:rp[i + 1]] for i in range(n)]
+    if is_abnormal(out):
+        return "symbolic factorisation of a valid pattern ended with " + out
+    o = Tk(out)
+    if o.tok() != "V":
+        return "malformed output"
+    lev = level_table(n, rows, p)
+    for i in range(n):
+        cols, lv = o.nlist(), o.nlist()
+        exp = [(j, lev[i][j]) for j in range(n) if j != i and lev[i][j] is not None]
+        if list(zip(cols, lv)) != exp:
+            return "row %d: (column, level) pairs %s, textbook level-of-fill gives %s" % (i, list(zip(cols, lv)), exp)
+    return None
+
+
 def oracle(case, out):
     op = case.split(" ", 1)[0]
+    if op == "ilulev":
+        try:
+            return oracle_ilulev(case, out)
+        except (IndexError, ValueError) as e:
+            return "unparsable implementation output (%s)" % e
     if case in REGRESSION_EXPECT and out != REGRESSION_EXPECT[case]:
         return "regression case: output %s, expected %s" % (out[:120], REGRESSION_EXPECT[case])
     try:
@@ -766,6 +882,12 @@ def canon(out):
 def _matrix_of(case):
     t = case.split()
     op = t[0]
+    if op == "ilulev":
+        c = Tk(case)
+        c.tok()
+        c.nat()
+        n = c.nat()
+        return "ilulev", "1/1", n, c.nlist(), c.nlist()
     c = Tk(case)
     c.tok()
     if op == "histb":
@@ -799,7 +921,7 @@ def describe(case):
     t = case.split()
     op = t[0]
     keys = ["op:" + op]
-    if op in ("hist", "histb", "iluf"):
+    if op in ("hist", "histb", "iluf", "ilulev"):
         kind, omega, n, rp, ci = _matrix_of(case)
         keys.append("kind:%s%s" % (kind, "-blocked%s" % t[1] if op == "histb" else ""))
         keys.append("n:%d" % n)
@@ -807,7 +929,15 @@ def describe(case):
             keys.append("omega:" + omega)
         if kind in ("ilu", "iluf"):
             keys.append("ilu-p:" + (t[2] if op == "hist" else t[3] if op == "histb" else t[1]))
-        if op != "iluf":
+        if kind in ("ilu", "iluf") and op != "histb":
+            pp = int(t[2] if op == "hist" else t[1])
+        if kind == "ilulev":
+            pp = int(t[1])
+        if kind in ("ilu", "iluf", "ilulev") and op != "histb":
+            rows = [ci[rp[i]:rp[i + 1]] for i in range(n)]
+            if pp >= 2 and n <= 9 and multipath_sensitive(n, rows, pp):
+                keys.append("ilu:multi-path-level-sensitive")
+        if op in ("hist", "histb"):
             nu = sum(1 for x in t if x == "U")
             keys.append("updates:%d" % nu)
             if t[-1] != "D":
@@ -841,6 +971,7 @@ def main(argv):
             for fn in sorted(os.listdir(cdir)):
                 cases += [l.strip() for l in open(os.path.join(cdir, fn)) if l.strip() and not l.startswith("#")]
         cases += gen_fill_refresh(rng, 300 if args.tier == "quick" else 3000)
+        cases += gen_multipath(rng, 150 if args.tier == "quick" else 3000)
         cases += gen_cases(rng, 12000) if args.tier == "quick" else gen_cases(rng, 150000, big=True)
     st = vlib.Stream("precond", cases, [binary], vlib.driver_cmd(PROP), oracle=oracle, nontrivial=nontrivial,
                      describe=describe, signature=signature, canon=canon,
